@@ -440,11 +440,26 @@ def _g2(ctx: Context) -> None:
     good_ret = all(_is_result(n) for n in rets)
     # the function end is a raise of not-found: the exit node has only return predecessors (through finally copies)
     fall = acfg.find_path(acfg.entry.id, acfg.exit.id, avoid_nodes=[n.id for n in rets])
-    ck.check("C19.G2", good_ret and bool(rets) and fall is None,
+    def _alts_g2(t_):
+        return [a for x in t_[1] for a in _alts_g2(x)] if t_[0] == "phi" else [t_]
+
+    held = [n for n in rets if n.exprs and not _is_result(n)]
+    via_local = bool(held) and all(
+        (lambda al: any(a[0] == "call" and a[1][0] == "attr" and a[1][2] == "result" for a in al) and all(
+            a == ("const", None) or (a[0] == "call" and a[1][0] == "attr" and a[1][2] == "result") for a in al))(_alts_g2(strip_sites(ctx.terms.of(acfg, n, n.exprs[0]))))
+        for n in held)
+    if via_local and fall is None:
+        # the result is kept in a local that starts as None and is returned behind a `found` flag: whether the flag implies
+        # that the local was set is a relation between two variables this analysis does not track - not decided
+        ck.unknown("C19.G2", "Controller.async_find returns a local that holds a transport's result or its initial None, selected by a flag: "
+                             "that it cannot return without a discovery is not decided", af.loc())
+    else:
+        ck.check("C19.G2", good_ret and bool(rets) and fall is None,
              "Controller.async_find: returns only a transport's result; otherwise it cannot end normally",
              f"{ctx.fkey(af)}:normal-exit", "Controller.async_find can end normally without a discovery", af.loc(),
              acfg.render_path(fall) if fall else None)
-    last = [n for n in acfg.nodes if n.kind == "raise" and not n.frames]
+    # the raise that ends the function: not inside a loop / try / with (an `if not found:` around it is the same raise)
+    last = [n for n in acfg.nodes if n.kind == "raise" and not any(fr[0] in ("loop", "try", "with") for fr in n.frames)]
     lc = set()
     for r in last:
         lc |= {exc for (_d, l, exc) in r.succ if l == "x"}
@@ -573,7 +588,7 @@ def _b1(ctx: Context, prof: PartialProfile) -> None:
             f"{f.qualname.rsplit('.', 2)[-2]}.{f.name}: lets {bad} escape; callers only ignore ValueError",
             f.loc(),
         )
-    ck.require_min("C19.B1", "index/key sites in the parsers", nidx, 4)
+    ck.require_min("C19.B1", "index/key sites in the parsers", nidx, 2)
     # callers catch ValueError around the parse and return
     for caller in (f"{BC}._device_detected", f"{ZC}._async_handle_loaded_service_info"):
         f = ctx.func(caller)
@@ -727,7 +742,7 @@ def _k1(ctx: Context) -> None:
         return p
 
     rows = [
-        ("status_flags", wrapped("StatusFlags", lambda t: t == ("sub", data, ("const", 2))), "StatusFlags(data[2])"),
+        ("status_flags", wrapped("StatusFlags", field(2, 1)), "StatusFlags(data[2])"),
         ("category", wrapped("Categories", field(9, 2)), "Categories(little-endian u16 at data[9:11])"),
         ("state_num", field(11, 2), "little-endian u16 at data[11:13]"),
         ("config_num", field(13, 1), "data[13]"),
@@ -742,6 +757,9 @@ def _k1(ctx: Context) -> None:
         and contains(idt, lambda s: s == ("call", ("attr", sl(3, 9), "hex"), (), ()))
         and contains(idt, lambda s: s == ("const", ":"))
     ) or idt == ("call", ("attr", sl(3, 9), "hex"), (("const", ":"),), ())  # bytes.hex(":") is lower-case and colon-separated already
+    if not ok_id and idt[0] == "call" and idt[1][0] == "attr" and idt[1][2] == "hex" and idt[2] == (("const", ":"),) and not idt[3]:
+        bf = byte_field(idt[1][1])  # the six id bytes taken as one `6s` field of a struct unpack
+        ok_id = bf is not None and bf[0] == data and bf[1] == 3 and bf[2] == 6 and bf[3] == "bytes"
     ck.check("C19.K1", ok_id, "BLE: id = lower-case colon-separated hex of data[3:9]", f"{ctx.fkey(f)}:field:id",
              f"HomeKitAdvertisement: id is {show(idt, 160)}", ctx.loc(f, rn))
     sh = kw.get("setup_hash", ("unknown", ""))
